@@ -44,7 +44,7 @@ def run(chk, facts_dir, tier):
     chk.analysed(rb.path)
     rev = Ev(prog, rb)
     fills = calls(rb, RAB + "fill")
-    if len(fills) == 1 and has_param(rev.operand(fills[0][1]["args"][4], (fills[0][0], "T")), "flushed_offset"):
+    if len(fills) == 1 and len(fills[0][1]["args"]) >= 5 and has_param(rev.operand(fills[0][1]["args"][4], (fills[0][0], "T")), "flushed_offset"):
         chk.ok("R18.1", "read() passes its flushed_offset on to fill()", rb.where(fills[0][1]["line"]))
     else:
         chk.fail("R18.1", RAB + "read", "flushed-not-forwarded", "ReadAheadBuf::read does not forward the caller's flushed offset to fill", rb)
@@ -54,6 +54,9 @@ def run(chk, facts_dir, tier):
         n += 1
         chk.analysed(b.path)
         ev = Ev(prog, b)
+        if len(b.term(bi)["args"]) < 5:
+            chk.fail("R18.1", b.path, "cache-read-without-flushed", "the read-ahead buffer is consulted without a flushed-offset bound", b, b.term(bi)["line"])
+            continue
         arg = ev.operand(b.term(bi)["args"][4], (bi, "T"))
         if has_param(arg, "flushed_offset") or has_call(arg, lambda n_: n_ == "seglog::FlushedOffset::load"):
             chk.ok("R18.1", "%s reads the buffer under its flushed offset" % b.path.split("::")[-1], b.where(b.term(bi)["line"]))
